@@ -789,8 +789,9 @@ StringStringMap transferUnitsRenamingIfRequired(const ModelPtr &sourceModel, con
             std::string reference = units->unitAttributeReference(unitIndex);
             if (!reference.empty() && !isStandardUnitName(reference) && sourceModel->hasUnits(reference)) {
                 auto clonedChildUnits = sourceModel->units(reference)->clone();
-                transferUnitsRenamingIfRequired(sourceModel, targetModel, clonedChildUnits, component);
-                units->setUnitAttributeReference(unitIndex, clonedChildUnits->name());
+                auto changedChildNames = transferUnitsRenamingIfRequired(sourceModel, targetModel, clonedChildUnits, component);
+                auto changedChildName = changedChildNames.find(reference);
+                units->setUnitAttributeReference(unitIndex, (changedChildName != changedChildNames.end()) ? changedChildName->second : clonedChildUnits->name());
             }
         }
 
@@ -831,8 +832,9 @@ void retrieveUnitsDependencies(const ModelPtr &flatModel, const ModelPtr &model,
                 flatModel->addUnits(childUnits);
                 flattenUnitsImports(flatModel, childUnits, flatModelUnitsIndex, component);
             } else {
-                transferUnitsRenamingIfRequired(model, flatModel, childUnits, component);
-                u->setUnitAttributeReference(unitIndex, childUnits->name());
+                auto changedChildNames = transferUnitsRenamingIfRequired(model, flatModel, childUnits, component);
+                auto changedChildName = changedChildNames.find(reference);
+                u->setUnitAttributeReference(unitIndex, (changedChildName != changedChildNames.end()) ? changedChildName->second : childUnits->name());
                 retrieveUnitsDependencies(flatModel, model, childUnits, component);
             }
         }
